@@ -1,0 +1,68 @@
+//go:build verif
+
+package pruner
+
+// Contracts for gocv (contract-based deductive verification, /verif).
+
+//@ opaque type github.com/NethermindEth/juno/core/felt.Felt
+
+// ---- inputs read from the database (assumed contracts: they only read) --------------
+//@ ghost var l1HeadRead uint64
+//@ ghost var heightRead uint64
+//@ extern func github.com/NethermindEth/juno/core.GetL1Head
+//@   assigns l1HeadRead
+//@   ensures result1 == nil ==> l1HeadRead == result0.BlockNumber
+//@ extern func github.com/NethermindEth/juno/core.GetChainHeight
+//@   assigns heightRead
+//@   ensures result1 == nil ==> heightRead == result0
+//@ extern func errors.Is
+
+// ---- the pruning entry point; its argument is the retention floor ---------------------
+//@ func (*Pruner).pruneUpto
+//@   trusted
+//@   logged
+//@   modifies *
+
+//@ func (*Pruner).applyTimeFloor
+//@   props C16
+//@   arith int
+//@   requires p != nil
+//@   ensures lowers: result <= standardFloor
+//@   ensures off: p.minAge == 0 ==> result == standardFloor
+
+// A new block: prune only below min(l1Head, head) - retained, and never wrap.
+//@ func (*Pruner).onNewBlock
+//@   props C16
+//@   arith int
+//@   requires p != nil && block != nil && block.Header != nil
+//@   modifies *
+//@   assigns l1HeadRead, calls_pruneUpto, arg_pruneUpto_oldestBlockToKeep, arg_pruneUpto_ctx
+//@   ensures once: calls_pruneUpto == old(calls_pruneUpto) || calls_pruneUpto == old(calls_pruneUpto) + 1
+//@   ensures floor: calls_pruneUpto == old(calls_pruneUpto) + 1 ==> arg_pruneUpto_oldestBlockToKeep + old(p.numRetainedBlocks) <= old(block.Number) && old(block.Number) < l1HeadRead
+
+// A new L1 head: same bound with the roles swapped.
+//@ func (*Pruner).onNewL1Head
+//@   props C16
+//@   arith int
+//@   requires p != nil && l1Head != nil
+//@   modifies *
+//@   assigns heightRead, calls_pruneUpto, arg_pruneUpto_oldestBlockToKeep, arg_pruneUpto_ctx
+//@   ensures once: calls_pruneUpto == old(calls_pruneUpto) || calls_pruneUpto == old(calls_pruneUpto) + 1
+//@   ensures floor: calls_pruneUpto == old(calls_pruneUpto) + 1 ==> arg_pruneUpto_oldestBlockToKeep + old(p.numRetainedBlocks) <= old(l1Head.BlockNumber) && old(l1Head.BlockNumber) < heightRead
+
+// Number-keyed block data: nothing at or above the range end is deleted, and headers
+// keep the BlockHashLag window below it.
+//@ func PruneBlockDataUpto
+//@   props C16
+//@   arith int
+//@   modifies *
+//@   callsite DeleteRange@*: bound: startKey == 0 && endKey <= rangeEndExclusive
+//@   callsite DeleteRange@1: headers: endKey == 0 || endKey + core.BlockHashLag == rangeEndExclusive
+//@   callsite pruneAggregatedBloomFiltersUpto@*: same: rangeEndExclusive == rangeEndExclusive
+
+// Aggregated bloom filters: only windows that end below the range end.
+//@ func pruneAggregatedBloomFiltersUpto
+//@   props C16
+//@   arith int
+//@   modifies *
+//@   callsite AggregatedBloomFilterKey@2: aligned: fromBlock % core.NumBlocksPerFilter == 0 && fromBlock <= rangeEndExclusive && rangeEndExclusive - fromBlock < core.NumBlocksPerFilter && toBlock == fromBlock + core.NumBlocksPerFilter - 1
